@@ -31,17 +31,20 @@ SpecMono(m) == <<m[1], m[2], { <<v, m[3][v]>> : v \in DOMAIN m[3] }>>
 SpecPoly(P) == { SpecMono(m) : m \in P }
 Substs == { subst[i] : i \in DOMAIN subst }
 
-RatesOK(e) == \A i \in DOMAIN subst : e.rates[i] = RatesFed(rsys, c, feed)[subst[i]]
+\* every observed field is either absent (<<>>) or must agree; at least one is present
+RatesOK(e) == e.rates = <<>> \/ (Len(e.rates) = Len(subst) /\
+    \A i \in DOMAIN subst : e.rates[i] = RatesFed(rsys, c, feed)[subst[i]])
 DcdtOK(e) == e.dcdt = <<>> \/ (Len(e.dcdt) = Len(subst) /\ \A i \in DOMAIN subst : e.dcdt[i] = Rates(rsys, c)[subst[i]])
-RvalsOK(e) == Len(e.rvals) = Len(rsys) /\ \A i \in DOMAIN rsys : e.rvals[i] = RateOf(rsys[i], c)
-ContribOK(e) == Len(e.contrib) = Len(rsys) /\
-    \A i \in DOMAIN rsys : \A j \in DOMAIN subst : e.contrib[i][j] = Contribution(rsys[i], c)[subst[j]]
+RvalsOK(e) == e.rvals = <<>> \/ (Len(e.rvals) = Len(rsys) /\ \A i \in DOMAIN rsys : e.rvals[i] = RateOf(rsys[i], c))
+ContribOK(e) == e.contrib = <<>> \/ (Len(e.contrib) = Len(rsys) /\
+    \A i \in DOMAIN rsys : \A j \in DOMAIN subst : e.contrib[i][j] = Contribution(rsys[i], c)[subst[j]])
 PolyOK(e) == e.poly = <<>> \/ (Len(e.poly) = Len(subst) /\
     \A j \in DOMAIN subst : ObsPoly(e.poly[j]) = SpecPoly(RatePolyInlinedFed(rsys, subst[j], feed.on)))
+SomeField(e) == e.rates # <<>> \/ e.poly # <<>>
 
 ResultOK(e) ==
     /\ phase = "ready"
-    /\ Len(e.rates) = Len(subst)
+    /\ SomeField(e)
     /\ RatesOK(e) /\ DcdtOK(e) /\ RvalsOK(e) /\ ContribOK(e) /\ PolyOK(e)
 
 TStep ==
@@ -62,7 +65,7 @@ Clause ==
     ELSE LET e == Ev IN
       IF e.ev # "Result" THEN "step:" \o e.ev
       ELSE IF phase # "ready" THEN "notready"
-      ELSE IF Len(e.rates) # Len(subst) THEN "shape"
+      ELSE IF ~SomeField(e) THEN "shape"
       ELSE IF ~RatesOK(e) THEN "rates"
       ELSE IF ~DcdtOK(e) THEN "dcdt"
       ELSE IF ~RvalsOK(e) THEN "rvals"
